@@ -372,6 +372,74 @@ class Core:
             return t, None
         return t, f
 
+    # ------------------------------------------------------------------ joining paths
+    def _compat_key(self, st):
+        statics = tuple(sorted((k, repr(v)) for k, v in st.loc.items() if isinstance(v, Static)))
+        calls = tuple(id(c) for c in st.ghost.get('$calls', []))
+        posts = tuple(id(c) for c in st.ghost.get('$posts', []))
+        names = tuple(sorted(k for k, v in st.loc.items() if not isinstance(v, Static)))
+        hd = st.ghost.get('$handling')
+        return (statics, calls, posts, names, id(hd) if hd is not None else None, st.fn, st.depth)
+
+    def merge(self, states):
+        """exact disjunctive join of fall-through states that agree on their engine-side (static) parts"""
+        if len(states) <= 1:
+            return states
+        groups = {}
+        for s in states:
+            groups.setdefault(self._compat_key(s), []).append(s)
+        out = []
+        for grp in groups.values():
+            out.append(grp[0] if len(grp) == 1 else self._merge_group(grp))
+        return out
+
+    def _merge_group(self, grp):
+        n = min(len(s.pc) for s in grp)
+        k = 0
+        while k < n and all(s.pc[k].get_id() == grp[0].pc[k].get_id() for s in grp):
+            k += 1
+        m = grp[0].fork()
+        m.pc = list(grp[0].pc[:k])
+        eqs = [[] for _ in grp]
+
+        def join(vals, name):
+            v0 = vals[0]
+            if all(v.get_id() == v0.get_id() for v in vals):
+                return v0
+            c = self.fresh('j_' + name, v0.sort())
+            for i, v in enumerate(vals):
+                eqs[i].append(c == v)
+            return c
+        for name in list(m.loc):
+            if not isinstance(m.loc[name], Static):
+                m.loc[name] = join([s.loc[name] for s in grp], name)
+        fields = set()
+        for s in grp:
+            fields |= set(s.heap)
+        for f in sorted(fields):
+            m.heap[f] = join([s.H(f) for s in grp], 'H!' + f)
+        m.ap = join([s.ap for s in grp], 'ap')
+        m.out = join([s.out for s in grp], 'OUT')
+        disj = []
+        for i, s in enumerate(grp):
+            parts = list(s.pc[k:]) + eqs[i]
+            disj.append(z3.And(parts) if parts else z3.BoolVal(True))
+        if not any(z3.is_true(d) for d in disj):
+            m.pc.append(z3.Or(disj))
+        # frame bookkeeping: every write of every branch keeps its own path condition
+        w, seen = [], set()
+        for s in grp:
+            for e in s.ghost.get('$writes', []):
+                if id(e) not in seen:
+                    seen.add(id(e))
+                    w.append(e)
+        m.ghost['$writes'] = w
+        m.facts = set()
+        for p in m.pc:
+            m.note_fact(p)
+        self.stats['merges'] = self.stats.get('merges', 0) + 1
+        return m
+
     # ------------------------------------------------------------------ obligations
     def oblige(self, st, name, goal, kind='ensures', extra_hyps=(), info=None):
         self.obls.append(Obligation(name, list(st.pc) + list(extra_hyps), goal, kind, info))
